@@ -54,10 +54,18 @@ def check(run):
         spec_cases.append((r["id"], "spec_agrees " + args))
         model_cases.append((r["id"], "enc_agrees " + args))
     byid = {r["id"]: r for r in cases}
+    # the v2 [short]-prefixed positions (list element, set element, map key, map value, each alone) at 65535 / 65536 / 70000 bytes: bytes by digest against
+    # the format written out in cqlcommon.v2size_expected, class and length against spec_val and m_encode in coqc; Encode repeatable and source intact
+    zf, zn, zcases = cc.v2size_findings(recs, round_trip=False)
+    sf0, sn0 = cc.source_findings(cases)
+    findings += zf + [f for f in sf0 if f["kind"] == "encode-not-repeatable"]
+    for r in recs:
+        if r.get("kind") == "v2size":
+            byid[r["id"]] = dict(r, rep="preferred", enc_hex="(%d bytes, sha256 %s)" % (r["enc_len"], r["enc_sha256"][:16]))
     spec_bad = model_bad = []
     if model_ok and usable:
         # one file per shard holds both comparisons of a case: "<id>.spec" and "<id>.model"
-        both = [(cid + ".spec", e) for cid, e in spec_cases] + [(cid + ".model", e) for cid, e in model_cases]
+        both = [(cid + ".spec", e) for cid, e in spec_cases] + [(cid + ".model", e) for cid, e in model_cases] + zcases
         ok1, bad, log1 = cc.eval_cases("Cases_C12", [], both)
         spec_bad = [b[:-5] for b in bad if b.endswith(".spec")]
         model_bad = [b[:-6] for b in bad if b.endswith(".model")]
@@ -67,7 +75,7 @@ def check(run):
             broken.append("correspondence: model_encode disagrees with the compiled code on cases %s" % model_bad[:20])
         if spec_bad:
             terms = []
-            for cid in spec_bad[:8]:
+            for cid in [c for c in spec_bad if byid[c].get("kind") != "v2size"][:8]:
                 r = byid[cid]
                 terms.append((cid, "spec_val %d %s %s" % (r["ver"], r["type_coq"], r["val_coq"])))
             exp = cc.eval_terms("Expect_C12", terms)
@@ -93,7 +101,8 @@ def check(run):
             broken.append("correspondence (decode of specification-formatted bytes): %s %s" % (bad3, log3[-300:]))
 
     nontrivial = set((r["type_coq"], r["val_coq"], r["ver"] >= 3) for r in usable if r["enc_class"] == "ok")
-    run.coverage["evaluations"] = len(spec_cases) + len(model_cases) + len(specdec)
+    run.coverage["evaluations"] = len(spec_cases) + len(model_cases) + len(specdec) + zn + len(zcases)
+    run.coverage["v2_size_boundary_cases"] = zn
     run.coverage["traces_validated_against_impl"] = len(model_cases)
     run.coverage["distinct_nontrivial"] = len(nontrivial)
     run.coverage["rule"] = ("each case = (type tree, version, abstract value, Go representation) encoded by the real datacodec.NewCodec(type).Encode; the bytes are compared "
